@@ -273,7 +273,8 @@ func isProphId(t types.Type) bool {
 func isByteSlice(t types.Type) bool {
 	if t, ok := t.(*types.Slice); ok {
 		if elTy, ok := t.Elem().(*types.Basic); ok {
-			return elTy.Name() == "byte"
+			// (byte and uint8 are one type)
+			return elTy.Kind() == types.Uint8
 		}
 	}
 	return false
